@@ -97,6 +97,15 @@ v('C07', 'fire', KA, 'cho_solve((L, True), HP', 'cho_solve((L, False), HP')
 v('C07', 'fire', KA, 'S = HP @ H.T + R', 'S = HP @ H.T')
 v('C07 C19', 'fire', KA, 'K = cho_solve((L, True), HP, overwrite_b=True).T', 'K = cho_solve((L, True), P, overwrite_b=True).T')
 v('C07', 'silent', KA, 'U = np.eye(len(x)) - K.dot(H)', 'U = np.identity(len(x)) - K @ H')
+v('C14', 'fire', 'inertial_sensor.py', '                if actual != nominal:', '                if not np.isclose(actual, nominal):', 'seeded C14 round 4: table column dropped for a parameter within isclose tolerance of nominal')
+v('C14', 'silent', 'inertial_sensor.py', '                if actual != nominal:', '                if not actual == nominal:', 'same exact test, other spelling')
+v('C14', 'silent', 'inertial_sensor.py', '                if actual != nominal:', '                if actual - nominal != 0:', 'same exact test on the deviation')
+v('C07', 'fire', KA, '    S = HP @ H.T + R\n', '    S = HP @ H.T + R\n    S[np.diag_indices_from(S)] += 1e-10\n', 'seeded C07 round 4: absolute jitter on the innovation covariance')
+_VL_OLD = "    n = len(F)\n"
+_VL_NEW = "    n = len(F)\n    if np.linalg.norm(F, 1) * dt > 18:\n        Phi, Qd = compute_process_matrices(F, Q, 0.5 * dt)\n%s\n"
+v('C08', 'fire', KA, _VL_OLD, _VL_NEW % "        Phi = Phi @ Phi\n        return Phi, Phi @ Qd @ Phi.T + Qd", 'seeded C08 round 4: halved step re-composed with the squared transition')
+v('C08', 'silent', KA, _VL_OLD, _VL_NEW % "        return Phi @ Phi, Phi @ Qd @ Phi.T + Qd", 'halved step re-composed by the semigroup law (exact)')
+v('C18', 'fire', 'transform.py', '    return result[state.columns]', '    return result', 'seeded C18 round 4 (in kind): result not re-ordered by the input columns')
 v('C06', 'fire', 'measurements.py', '        self.R = sd**2 * np.eye(3)', '        self.R = sd * np.eye(3)', 'noise matrix holds the standard deviation instead of the variance')
 v('C06 C13', 'fire', 'measurements.py', '            R = R[:2, :2]', '            R = R[1:, 1:]', '2-D noise block taken from the east/down components')
 v('C06', 'silent', 'measurements.py', '        self.R = sd**2 * np.eye(3)', '        self.R = np.diag([sd * sd] * 3)', 'same variance matrix, other spelling')
